@@ -1,14 +1,16 @@
 """C10 - decided on the metadata-heavy engine-history corpus by the C10.* clauses of spec/Trace_Doc.tla."""
-from checks import _shared
+from checks import _shared, _core
 import shared
 
 LEVEL = "model_checking"
 
 
 def run(ctx):
-  return _shared.run_clauses(ctx, "C10.", lambda e: e['k'] == 'B' and e['tag'] == 'ua' and e['onlyrm'],
-                             "calls that request only removals (records, tables, columns, views, sections; cascades and auto-removal included): no data Ref/RefList cell that pointed at a removed row still does (C10.ref); RefList cells keep their other ids in order and become None when empty (C10.reflist); user and metadata tables alike", name="meta", plan=shared.PLAN_META)
+  return _core.merge(ctx, _shared.run_clauses(ctx, "C10.", lambda e: e['k'] == 'B' and e['tag'] == 'ua' and e['onlyrm'],
+                             "calls that request only removals (records, tables, columns, views, sections; cascades and auto-removal included): no data Ref/RefList cell that pointed at a removed row still does (C10.ref); RefList cells keep their other ids in order and become None when empty (C10.reflist); user and metadata tables alike", name="meta", plan=shared.PLAN_META), "C10.")
 
 
 def replay(ctx, data):
+  if "core_chunk" in data:
+    return _core.replay(ctx, data, "C10.")
   return _shared.replay_clause(ctx, data, "C10.")
